@@ -1,7 +1,7 @@
 #!/bin/sh
 # usage: seed_try.sh <patch.diff> <property id> [tier]   -- applies a seeded change to /repo, runs the check, undoes it
 p="$1"; id="$2"; tier="${3:-quick}"
-cd /repo || exit 2
+echo "seed_try.sh patches /repo itself: make sure no other check is running (prefer seed_process.sh / VERIF_REPO on a scratch worktree)"; cd /repo || exit 2
 if [ -n "$(git status --porcelain --untracked-files=no)" ]; then echo "/repo not clean"; exit 2; fi
 git apply "$p" || { echo "patch does not apply"; exit 2; }
 ( cd /verif && ./check "$id" --tier "$tier" 2>&1 | tail -6 )
